@@ -114,14 +114,14 @@ PROPS = {
                   ("ST", 2, None), ("SH", 1, has("SddPtr> for T>::condition")), ("SA", 10, None), ("VX", 11, None),
                   ("VO", 1, vo_sel("::sdd::", only_label_order=True)),
                   ("GL", 12, has(":GL1:", ":GL2:", "SddPtr> for T>::ite:GL4", "SddPtr> for T>::and:GL4", "AllIteTable:GL8", ":GL10:", "SddPtr> for T>::ite:GL11", "SddPtr> for T>::and:GL11")),
-                  ("BT", 9, None), ("MK", 0, has("::sdd::")), ("WC", 4, has("sdd-")), ("WC", 6, has("sdd-node"))],
+                  ("BT", 9, None), ("MK", 0, has("::sdd::")), ("WC", 4, has("sdd-")), ("WC", 6, has("sdd-node")), ("CM", 9, None), ("RN", 3, has("exhaustive-primes"))],
         "explanation": "Complement coherence of every place the SDD code touches subs/children of a possibly complemented node "
                        "(and_sub_desc, and_prime_desc, and_cartesian, condition, SddPtr::{low,high,neg,is_neg}): operands of "
                        "and/ite/..., elements of result nodes and traversal recursion denote the same thing for a regular and "
                        "a complemented pointer; primes are never sign-dependent (CP). Derived operators ite/iff/xor/exists/"
                        "negate/or/compose match their truth tables (DT); the standard-triple normalisation used by the SDD ite preserves "
                        "ite(f,g,h) (ST); a literal conditioned on its own variable is True iff polarity == value (SH). History immunity (IM, HE). Not decided: the vtree "
-                       "case analysis of and, cartesian-product shortcuts, conditioning's element recursion. Added: no ordering comparison of variable labels in SDD code - vtree positions decide (VO label-order); every implementor's compose satisfies the documented definition with g allowed to mention the variable (DT on overrides); the SDD ite/and caches use one key and one hash and the Lru keeps key/value/hash together (GL1, GL2, GL4). Added after the fourth seeding round: every function that looks a pointer up in a pointer-valued memo, returns the hit and inserts into the same memo applies the argument's sign the same way going in and coming out (MK1: hit returned as neg^r(X) means stored V and returned R on a miss satisfy R = neg^r(V), for each sign), and a memo entry shared by a node and its complement without sign adjustment is only allowed for a function that never returns its argument itself (MK2). There is no such memo in the SDD code today (floor 0); the rule ranges over all functions, so one that is added is checked. Ownership (WC sdd caches): the apply cache is keyed by the operands of a conjunction and the ite cache by a standard triple; neither key names the operation, so app_cache_* is used by `and` only and ite_cache_* by `ite` only (or by private helpers of those). A second operation filed under such keys is reported. Added: WC sdd-node — SDD decision nodes are built (unique_bdd / unique_or / canonicalize) only by the four and_* cases and condition, or by private helpers called only from those: they are what establishes that primes live under the left and subs under the right child of the node's vtree position; the constructors intern whatever they are handed.",
+                       "case analysis of and, cartesian-product shortcuts, conditioning's element recursion. Added: no ordering comparison of variable labels in SDD code - vtree positions decide (VO label-order); every implementor's compose satisfies the documented definition with g allowed to mention the variable (DT on overrides); the SDD ite/and caches use one key and one hash and the Lru keeps key/value/hash together (GL1, GL2, GL4). Added after the fourth seeding round: every function that looks a pointer up in a pointer-valued memo, returns the hit and inserts into the same memo applies the argument's sign the same way going in and coming out (MK1: hit returned as neg^r(X) means stored V and returned R on a miss satisfy R = neg^r(V), for each sign), and a memo entry shared by a node and its complement without sign adjustment is only allowed for a function that never returns its argument itself (MK2). There is no such memo in the SDD code today (floor 0); the rule ranges over all functions, so one that is added is checked. Ownership (WC sdd caches): the apply cache is keyed by the operands of a conjunction and the ite cache by a standard triple; neither key names the operation, so app_cache_* is used by `and` only and ite_cache_* by `ite` only (or by private helpers of those). A second operation filed under such keys is reported. Added: WC sdd-node — SDD decision nodes are built (unique_bdd / unique_or / canonicalize) only by the four and_* cases and condition, or by private helpers called only from those: they are what establishes that primes live under the left and subs under the right child of the node's vtree position; the constructors intern whatever they are handed. Added: CM — compression merges two elements only on equal subs and keeps the disjunction of *both* primes in the element that stays (a lost prime changes the function, not just the shape); RN3 exhaustive-primes — an operation leaves an element out only because its prime is empty, never on a test of its sub.",
     },
     "C06": {
         "level": "other",
